@@ -20,7 +20,7 @@ RULE = ("stratified + seeded random (configuration, sample) pairs, parameters ov
 REQUIRED = ["range_checked:fixed_alternative_mean", "range_checked:shrink_trunc", "range_checked:optimal_comparison",
             "range_checked:fixed_bet", "range_checked:agrapa", "strictly_above_mu_checked", "sign_entries_checked",
             "one_step_extensions", "regime:fixed_alternative_impossible", "regime:margin_below_rate", "regime:optimal_comparison_u_le_1",
-            "stratum:cap_binds_at_the_default_scale_then_zero", "bets_equal_to_the_cap_at_the_default_scale", "configurations_whose_bound_is_not_a_dyadic_rational"]
+            "stratum:cap_binds_at_the_default_scale_then_zero", "stratum:very_small_null_mean", "bets_equal_to_the_cap_at_the_default_scale", "configurations_whose_bound_is_not_a_dyadic_rational"]
 ASSUMPTIONS = ["mu_j recomputed by an independent loop; 'mu_j < u' for the strict clause means mu_j < u(1-1e-6), the "
                "tolerance the tests themselves use for mu_j = u", "fixed_bet's lambda is the user's; lambda <= 1/u is "
                "generated (the C01 quantifier)", "optimal_comparison mostly with u > 1 (comparison audits), u <= 1 in 20 % of its cases"]
@@ -49,6 +49,28 @@ def runs_sample(rng, cfg):
 def run_shard(spec, rec):
     rng = random.Random(f"c13-{spec['seed']}-{spec['shard']}")
     for i in range(spec["n"]):
+        if i % 16 == 14:
+            # a very small null mean (t = 2^-27 ... 2^-40; or what is left of N t after the early draws): 1/mu_j is huge, the
+            # sample sits a little above mu_j with almost no variance, so the raw aGRAPA bet (~ 2/mu_j) needs its cap
+            combo = rng.choice((("betting_mart", None, "agrapa"), ("betting_mart", None, "agrapa"), ("alpha_mart", "shrink_trunc", None),
+                                ("alpha_mart", "fixed_alternative_mean", None)))
+            cfg = nn.gen_cfg(rng, combo=combo, allow_not_random=False)
+            for k in ("u_built", "N_warm", "int_dtype", "reused"):
+                cfg.pop(k, None)
+            cfg["u"] = 1.0
+            cfg["t"] = 2.0 ** -rng.choice((27, 30, 34, 40))
+            if "eta" in cfg["kw"]:
+                cfg["kw"]["eta"] = cfg["t"] * rng.choice((1.5, 4.0, 2.0 ** 20))
+            if "lam" in cfg["kw"]:
+                cfg["kw"]["lam"] = rng.choice((0.5, 1.0, 2.0 ** 20))
+            if cfg["N"] != "inf":
+                cfg["N"] = rng.randint(6, 40)
+            n = rng.randint(2, 5 if cfg["N"] == "inf" else cfg["N"] - 1)
+            x = [cfg["t"] * rng.choice((1.25, 1.5, 1.5, 1.75)) for _ in range(n)] + [0.0]
+            if nn.in_domain(cfg, x):
+                rec.count("stratum:very_small_null_mean")
+                run_case({"cfg": cfg, "x": x, "stratum": "very_small_null_mean"}, rec)
+            continue
         if i % 16 == 15:
             # the regime where the aGRAPA cap c/mu_j binds with c at its default 1 - eps (one ulp of slack): a small
             # population, a null mean and observations that are not dyadic rationals, a low-variance sample a little
